@@ -159,7 +159,7 @@ def handle (line : String) : String :=
     -- names after every event, x 4 file-scope prefixes
     let names := ["T", "U"]
     let alpha : List Spec.ScEv := [.openBlock, .closeBlock] ++ names.flatMap fun n =>
-      [.typedefName n, .object n, .func n, .tag n, .member n, .protoParam n]
+      [.typedefName n, .object n, .func n, .tag n, .member n, .protoParam n, .objectS n (if n == "T" then 0 else 3)]
     let rec seqs : Nat → List (List Spec.ScEv)
       | 0 => [[]]
       | k+1 => (seqs k).flatMap fun s => alpha.map fun e => s ++ [e]
@@ -191,7 +191,7 @@ def handle (line : String) : String :=
     -- histories with for-init declarations (one name is enough for them), closing braces added
     let names := ["T", "U"]
     let alpha : List Spec.ScEv := [.openBlock, .closeBlock, .forObject "T" false, .forObject "T" true, .forObject "U" true] ++
-      names.flatMap fun n => [.typedefName n, .object n]
+      names.flatMap fun n => [.typedefName n, .object n, .objectS n (if n == "T" then 2 else 1)]
     let rec seqsF : Nat → List (List Spec.ScEv)
       | 0 => [[]]
       | k+1 => (seqsF k).flatMap fun s => alpha.map fun e => s ++ [e]
